@@ -319,8 +319,8 @@ def _index_array_kind(ctx, f, e: ast.AST, depth: int = 0) -> Optional[str]:
             return "unique" if not any(k.arg and k.arg.startswith("return_") for k in e.keywords) else None
         if nm in ("arange", "range"):
             return "unique"
-        if nm in ("where", "nonzero", "argwhere", "flatnonzero", "searchsorted", "digitize", "repeat", "tile"):
-            return "array"
+        if nm in ("searchsorted", "digitize", "repeat", "tile"):
+            return "array"          # (np.where / argwhere of a comparison with one element are per-edge scalars: not claimed)
         return None
     if isinstance(e, ast.Name) and isinstance(e.ctx, ast.Load):
         defs = ctx.rd(f).defs_reaching(e)
@@ -447,8 +447,6 @@ def r2_accumulate_on_scatter(ctx, rid):
                 continue
             if not (isinstance(tgt, ast.Subscript) and isinstance(tgt.value, ast.Name)):
                 continue
-            if any(isinstance(a, ast.For) and _zip_targets(a) is not None for a in _anc(st)):
-                continue                # a per-edge store inside a zip loop: judged above
             kind = _index_array_kind(ctx, f, tgt.slice)
             if kind is None:
                 continue
